@@ -1,9 +1,9 @@
 #!/bin/bash
-# Regenerates /verif/symord/shim = registry source of bc-components (version pinned by ${VERIF_REPO:-/repo}/Cargo.lock)
+# Regenerates /verif/symord/shim = registry source of bc-components (version pinned by ${VERIF_LOCK:-/repo/Cargo.lock})
 # + the order-hook patch (tools/shim.patch). Nothing in /repo is touched.
 set -euo pipefail
 cd "$(dirname "$0")/.."
-VER=$(awk '/^name = "bc-components"$/{getline; gsub(/version = |"/,""); print; exit}' ${VERIF_REPO:-/repo}/Cargo.lock)
+VER=$(awk '/^name = "bc-components"$/{getline; gsub(/version = |"/,""); print; exit}' ${VERIF_LOCK:-/repo/Cargo.lock})
 SRC=$(ls -d "$HOME"/.cargo/registry/src/*/bc-components-"$VER" | head -1)
 [ -d "$SRC" ] || { echo "bc-components $VER not in the cargo registry" >&2; exit 2; }
 rm -rf symord/shim
